@@ -162,6 +162,21 @@ CHECKS["C03"] = dict(
          "closed spellings (their documented domain).",
     technique="TLA+ exact rational measures evaluated by TLC on recorded answers for TLC-generated spelling orbits (trace validation)")
 
+CHECKS["C14"] = dict(
+    level="exploration",
+    text="Clip.tla computes the exact combinatorial clip of a simple (multi-)line against a valid polygonal in general position: proper "
+         "crossings per segment ordered by rational parameter, inside/outside alternation from the exact membership of the first "
+         "vertex, hence the expected position intervals. The real Clip's output vertices are mapped to descriptors (line vertex / "
+         "crossing of segment i with edge e of ring r, identified by exact rational intersection) and ClipTrace.tla requires every "
+         "piece to be a sub-path of its line and the union of pieces to equal the expected intervals (so vertices lie on L and in "
+         "P, total length is that of the intersection, and the result is empty exactly when L does not enter P). Simplicity and "
+         "general position of every case are decided by TLC.",
+    design_ref="DESIGN.md section 5, C14",
+    note="Trusted: TLC, the harness's exact (big.Rat) identification of an output vertex with a crossing when within 1e-9. Lattice "
+         "inputs <= 64.",
+    technique="TLA+ exact combinatorial clipping oracle evaluated by TLC on recorded results of TLC-enumerated and random cases "
+              "(trace validation)")
+
 NOT_YET = "check not built yet in this round of work; will be claimed when its specification, replay and trace validation exist"
 NA = {
     "C09": "oracle is proj4js 2.3.12 and closed-form geodesy (real-valued transcendental functions, a JavaScript program that "
